@@ -15,7 +15,8 @@ BODIES = [b"keep;\r\n", b"", b"OK\r\n", b"OK \"done\"\r\nkeep;\r\n", b"NO\r\n", 
           # a byte order mark is text like any other: first in the script, first in a later line, inside a line
           b"\xef\xbb\xbfkeep;\r\n", b"keep;\r\n\xef\xbb\xbfstop;\r\n\xef\xbb\xbf\xef\xbb\xbfx\r\n", b"a\xef\xbb\xbfb\r\n"]
 NAMES = [b"a", b"main", b'q"uote', b"back\\slash", b"{5}", b"{3+}", b"OK", b"NO x", b"BYE", b"ACTIVE", b"x ACTIVE", b'"', b"\xc3\xa9t\xc3\xa9", b"sp ace", b"a b c", b"\\\"",
-         b'my "best" rules', b'keep "this" ACTIVE', b'two "q" and "r"', b"form\x0cfeed"]
+         b'my "best" rules', b'keep "this" ACTIVE', b'two "q" and "r"', b"form\x0cfeed",
+         b'"draft', b"it\"s", b'"a\\"b']
 
 
 def norm(body):
@@ -55,7 +56,9 @@ def run(ctx):
         evals += 1
         want = "res=ls:%s:%s" % ("-" if active is None else msref.hexor(active), ",".join(msref.hexor(x) for x in names if x != active))
         lits = getattr(srv, "last_listing_literals", [])
-        cls = "literal-name" if any(x == active or x.startswith(b'"') for x in lits) else None
+        # KF-C17-1 precisely: a literal line is misread when it carries the ACTIVE marker, or when it begins with a complete quoted
+        # string (an opening quote AND a closing one) — a name that merely begins with a quote is read correctly
+        cls = "literal-name" if any(x == active or refserver.QUOTED_PREFIX.match(x) for x in lits) else None
         if out.split(" ")[0] != want:
             viol.append({"encoding_class": cls, "what": "listing: client %s, server holds %s" % (out.split(" ")[0][:200], want[:200]),
                          "names": [x.decode("latin-1") for x in names], "active": active.decode("latin-1") if active else None})
